@@ -486,8 +486,10 @@ func main() {
 	n := flag.Int("n", 20, "number of histories (mode record)")
 	steps := flag.Int("steps", 60, "steps per history (mode record)")
 	cleans := flag.Int("cleans", 0, "clean cache size in bytes (0 = disabled)")
+	fat := flag.Int("fat", 0, "extra bytes per storage value (mode record): large enough values make Commit span several batches")
 	flag.Parse()
 	seed := int64(tl.EnvInt("VERIF_SEED", 1))
+	slotPadding = *fat
 	sum := tl.NewSummary("c21", *mode, seed)
 	switch *mode {
 	case "world":
